@@ -119,6 +119,8 @@ def run(tier: str, seed: int) -> int:
             hdf, _ = packfs.make_frame(24, seed + 91)
             for hi, (label, change) in enumerate((("filtered", lambda f: f[f["id"] > 9]), ("other geometry", lambda f: f.set_geometry("other")))):
                 packed = dd.from_pandas(hdf, npartitions=3).pack_partitions(npartitions=2, p=7)
+                packed.partition_sindex  # noqa: B018   (the frame's partition bounds are cached before it is changed)
+                _ = packed.cx[0:1, 0:1]
                 src = change(packed)
                 path = os.path.join(hroot, f"h{hi}.parq")
                 ret = src.pack_partitions_to_parquet(path, npartitions=3, p=5, _retry_args=packfs.RETRY)
